@@ -11,6 +11,7 @@ mod linear;
 mod obj;
 mod overhead;
 mod params;
+mod plancache;
 mod scn;
 mod slabobs;
 mod stream;
@@ -54,6 +55,8 @@ fn dispatch(cmd: &str, opts: &util::Opts) {
         "kernels" => kernels::run(opts),
         "slabobs" => slabobs::run(opts),
         "linear" => linear::run(opts),
+        "plancache-replay" => plancache::replay(opts),
+        "plancache-log" => plancache::log(opts),
         "scenarios" => scn::run_all(&opts.str("out", "scn.ndjson"), opts.u64("seed", 1), &opts.str("profile", "release"), opts.thorough()),
         // self-test of the guard allocator: must die with SIGSEGV under RQV_GUARD=1 / 2 respectively
         "guardtest" => {
